@@ -16,6 +16,7 @@ PID = 'C06'
 def unit(rng, ntypes):
     aggs = gen_types.gen_types(rng, ntypes)
     prefix = '\n'.join(a.definition() for a in aggs) + '\n'
+    rprefix = '\n'.join(a.definition(ref=True) for a in aggs) + '\n'
     decls = []
     for a in aggs:
         items = ['sizeof(%s)' % a.cname, '_Alignof(%s)' % a.cname]
@@ -45,10 +46,11 @@ def unit(rng, ntypes):
         d, vals = gen_types.gen_enum(rng, tag)
         if all(-2147483648 <= v <= 2147483647 for v in vals):
             prefix += d + '\n'
+            rprefix += d + '\n'
             nm = 'en_%s' % tag
             decls.append(dataref.Decl(nm, 'unsigned long %s[] = { sizeof(enum %s), _Alignof(enum %s), (enum %s)-1 < 0, __builtin_types_compatible_p(enum %s, int), __builtin_types_compatible_p(enum %s, unsigned), sizeof(%s_e0) };'
                                       % (nm, tag, tag, tag, tag, tag, tag), [nm], meta=d))
-    return prefix, decls
+    return prefix, rprefix, decls
 
 
 C23_ENUMS = [
@@ -70,18 +72,18 @@ C23_ENUMS = [
 def _unit(args):
     exe, idx, seed, target, wd, usegcc = args
     rng = random.Random(seed)
-    prefix, decls = unit(rng, 10)
+    prefix, rprefix, decls = unit(rng, 10)
     sub = os.path.join(wd, 'u%d-%s' % (idx, target))
     os.makedirs(sub, exist_ok=True)
     res = {'idx': idx, 'target': target, 'n': 0, 'skips': {}, 'viol': [], 'nontrivial': 0}
-    obj, rrej, err = dataref.ref_images('clang', target, prefix, decls, sub, 'ref')
+    obj, rrej, err = dataref.ref_images('clang', target, rprefix, decls, sub, 'ref')
     if obj is None:
         res['skips']['ref-reject-unit'] = 1
         res['detail'] = err[:500]
         return res
     gobj = None
     if usegcc and target == 'x86_64-sysv':
-        gobj, grej, gerr = dataref.ref_images('gcc', target, prefix, decls, sub, 'gref')
+        gobj, grej, gerr = dataref.ref_images('gcc', target, rprefix, decls, sub, 'gref')
     live = [d for d in decls if d.id not in rrej]
     res['skips']['ref-reject'] = len(rrej)
     m, crej, crash, live2 = dataref.cproc_images(exe, target, prefix, live, sub, 'c')
@@ -163,7 +165,7 @@ def run(tier):
                 if got != v:
                     ck.violation('c23enum:' + e[:40], 'C23 enum semantics (-t %s): %s is %d, N3029/N3030 give %d  [%s]' % (t, e, got, v, src), {'input.c': text}, text=e)
     ck.sample({'unit_seed_example': 'types T0..T9 with members of every scalar type, arrays, nested/anonymous aggregates, bit-fields (all widths, zero-width, unnamed), packed, _Alignas, flexible arrays'})
-    p, d = unit(random.Random(1), 3)
+    p, rp_, d = unit(random.Random(1), 3)
     ck.sample({'prefix': p[:600], 'decl': d[0].text[:300]})
     ck.rule = ('10 aggregate types + 6 enums per unit; per type one table {sizeof, _Alignof, offsetof/sizeof of every member path} and one all-ones image per bit-field; '
                'oracle clang --target (x86_64/aarch64/riscv64), gcc must agree on x86-64; non-trivial = type with >=2 members, a bit-field or packed')
